@@ -5,6 +5,8 @@
 name: array_comp.null
 define: U_COMP, B_NULLARG
 src: array.c
+native: array_obj
+native_includes: array.c
 enforce: spif_array_comp
 backend: sat
 loops: 1
@@ -13,6 +15,8 @@ loops: 1
 name: array_comp.samelen
 define: U_COMP, B_SAMELEN
 src: array.c
+native: array_obj
+native_includes: array.c
 enforce: spif_array_comp
 backend: sat
 loops: 1
@@ -21,6 +25,8 @@ loops: 1
 name: array_comp.shorter
 define: U_COMP, B_SHORTER
 src: array.c
+native: array_obj
+native_includes: array.c
 enforce: spif_array_comp
 backend: sat
 loops: 1
@@ -29,6 +35,8 @@ loops: 1
 name: array_comp.longer
 define: U_COMP, B_LONGER
 src: array.c
+native: array_obj
+native_includes: array.c
 enforce: spif_array_comp
 backend: sat
 loops: 1
@@ -37,6 +45,8 @@ loops: 1
 name: array_comp.reflexive
 define: U_COMP_REFL, VA_COMP_KEY
 src: array.c
+native: array_obj
+native_includes: array.c
 enforce: spif_array_comp
 backend: sat
 loops: 1
@@ -45,6 +55,8 @@ loops: 1
 name: array_type
 define: U_TYPE
 src: array.c, obj.c
+native: array_obj
+native_includes: array.c
 enforce: spif_array_type
 backend: sat
 */
@@ -52,6 +64,8 @@ backend: sat
 name: array_list_new
 define: U_NEW, K_LIST
 src: array.c, obj.c
+native: array_obj
+native_includes: array.c
 enforce: spif_array_list_new
 backend: sat
 */
@@ -59,6 +73,8 @@ backend: sat
 name: array_vector_new
 define: U_NEW, K_VECTOR
 src: array.c, obj.c
+native: array_obj
+native_includes: array.c
 enforce: spif_array_vector_new
 backend: sat
 */
@@ -66,6 +82,8 @@ backend: sat
 name: array_map_new
 define: U_NEW, K_MAP
 src: array.c, obj.c
+native: array_obj
+native_includes: array.c
 enforce: spif_array_map_new
 backend: sat
 */
@@ -90,7 +108,7 @@ backend: sat
 # define BEHAV (self != NULL && other != NULL && self->len > other->len)
 #endif
 static spif_cmp_t spif_array_comp(spif_array_t self, spif_array_t other)
-__CPROVER_requires((self == NULL || ARRAY_VALID(self)) && (other == NULL || ARRAY_VALID(other)) && BEHAV)
+__CPROVER_requires((self == NULL || ARRAY_VALID_W(self)) && (other == NULL || ARRAY_VALID(other)) && BEHAV)
 __CPROVER_requires(self == NULL || SNAP_ITEM(self, vg_k, vg_old_k))
 __CPROVER_requires(other == NULL || SNAP_ITEM(other, vg_k, vg_old_k2))
 __CPROVER_requires(vg_ca == vg_old_k && vg_cb == vg_old_k2 && VA_CMP_OK(vg_cr))
@@ -116,7 +134,7 @@ void harness(void) { spif_array_t self, other; spif_array_comp(self, other); VER
 #ifdef U_COMP_REFL
 /* comp(a, a) == EQUAL for every container (key model: comp(x, x) is EQUAL for every element) */
 static spif_cmp_t spif_array_comp(spif_array_t self, spif_array_t other)
-__CPROVER_requires(ARRAY_VALID(self) && other == self)
+__CPROVER_requires(ARRAY_VALID_W(self) && other == self)
 __CPROVER_requires(SNAP_ITEM(self, vg_k, vg_old_k) && vg_old_k2 == vg_old_k && vg_cr == SPIF_CMP_EQUAL)   /* ghost slot pair is (x, x) */
 __CPROVER_assigns(vg_exit)
 __CPROVER_ensures(__CPROVER_return_value == SPIF_CMP_EQUAL)
